@@ -192,13 +192,14 @@ def make_cases(ctx):
         usage.append(("out-of-domain:%s.%s=%s" % (sec, key, val), dict(noyaml, **{".thailint.yaml": "%s:\n  enabled: true\n  %s: %s\n" % (sec, key, val)}), [], [cmd], ["."]))
         if cmd in ("nesting", "srp"):
             usage.append(("out-of-domain:%s.python.%s=%s" % (sec, key, val), dict(noyaml, **{".thailint.yaml": "%s:\n  python:\n    %s: %s\n" % (sec, key, val)}), [], [cmd], ["."]))
-    # a threshold that is no number at all (text, list, null): no file can be judged with it
+    # a threshold that is no number at all (text, list): no file can be judged with it
     for cmd, sec, key in [("nesting", "nesting", "max_nesting_depth"), ("srp", "srp", "max_methods"), ("srp", "srp", "max_loc"), ("magic-numbers", "magic-numbers", "max_small_integer"),
                           ("dry", "dry", "min_duplicate_lines"), ("dry", "dry", "min_occurrences"), ("stringly-typed", "stringly-typed", "min_occurrences"),
                           ("stringly-typed", "stringly-typed", "min_values_for_enum"), ("pipeline", "collection-pipeline", "min_continues"),
                           ("stateless-class", "stateless-class", "min_methods"), ("method-property", "method-property", "max_body_statements"),
                           ("magic-numbers", "magic-numbers", "allowed_numbers")]:
-        for label, val in (("text", "abc"), ("list", [1]), ("null", None)) if key != "allowed_numbers" else (("scalar", 5),):
+        # (a key without a value - null - is the subject of run_empty_keys: refused or treated as absent)
+        for label, val in (("text", "abc"), ("list", [1])) if key != "allowed_numbers" else (("scalar", 5),):
             usage.append(("non-numeric-threshold:%s.%s:%s" % (sec, key, label), dict(noyaml, **{".thailint.json": json.dumps({sec: {"enabled": True, key: val}})}), [], [cmd], ["."]))
     for name, files, pre, argv, targets in usage:
         cases.append({"kind": "usage", "files": files, "pre": pre, "argv": argv, "targets": targets, "id": "usage:" + name})
@@ -327,10 +328,70 @@ def run(ctx):
             ctx.inconclusive_if(True, "case %s failed in harness: %s" % (case["id"], str(o)[:300]))
             continue
         check_case(ctx, case, o["value"])
+    run_empty_keys(ctx)
     ctx.obs["commands_with_violations"] = sorted(k[4:] for k in ctx.counters if k.startswith("cmd:"))
     missing = [c for c in triggers.CMDS if "cmd:" + c not in ctx.counters]
     ctx.inconclusive_if(ctx.counters["runs_with_many"] < 10 or ctx.counters["runs_with_0"] < 10, "too few many/zero-violation runs observed")
     conformance(ctx, [c for c in cases if c["kind"] == "lint"][:8] + [c for c in cases if c["kind"] == "usage"])
+
+
+def empty_key_job(arg):
+    files, cmd, sec, key, carrier = arg
+    out = {}
+    for label in ("absent", "empty"):
+        body = {"enabled": True}
+        if sec == "dry":
+            body["min_duplicate_lines"] = 3
+        if label == "empty":
+            body[key] = None
+        fs = dict(files)
+        if carrier == "yaml":
+            # (written by hand: `key:` followed by nothing, the way a list with all its items commented out looks)
+            fs[".thailint.yaml"] = "%s:\n%s" % (sec, "".join("  %s:%s\n" % (k, "" if v is None else " " + json.dumps(v)) for k, v in body.items()))
+        else:
+            fs[".thailint.json"] = json.dumps({sec: body})
+        d = runner.new_dir("n")
+        runner.write_tree(d, fs)
+        r = runner.cli([cmd, "--format", "json", "."], d)
+        vs = r.violations()
+        out[label] = {"exit": r.exit, "v": None if vs is None else sorted([v["rule_id"], v["file_path"], v["line"], v["column"], v["message"]] for v in vs),
+                      "swallowed": sorted({str(x.get("exc"))[:80] for x in r["swallowed"]})[:3], "err": r.err[-200:]}
+    return out
+
+
+def run_empty_keys(ctx):
+    """A documented key written WITHOUT a value (null): the run either refuses the configuration (exit 2) or behaves as if the key were absent -
+    never a 'successful' run whose rules failed on every file."""
+    from ..gen import staircase
+
+    proj = dict(staircase.files(), **{k: v for k, v in triggers.files("e").items() if k != ".thailint.yaml"})
+    keys = sorted({(c, sec, key.split(".")[0]) for (c, sec, key, _v) in staircase.SWEEPS} |
+                  {(c, staircase.SECTIONS[c], lang) for c in ("nesting", "srp", "magic-numbers", "dry") for lang in ("python", "typescript", "javascript", "rust")} |
+                  {(c, staircase.SECTIONS[c], "ignore") for c in staircase.SECTIONS if c not in ("file-placement", "lazy-ignores", "string-concat-loop", "regex-in-loop")} |
+                  {("dry", "dry", "filters"), ("file-header", "file-header", "languages")})
+    if ctx.quick:
+        keys = keys[ctx.seed % 3::3]
+    jobs = [(proj, c, sec, key, ("yaml", "json")[i % 2]) for i, (c, sec, key) in enumerate(keys)]
+    for (fs, c, sec, key, carrier), o in zip(jobs, runner.pmap(empty_key_job, jobs, timeout=600)):
+        if not o.get("ok"):
+            ctx.inconclusive_if(True, "empty-key job %s.%s failed in harness: %s" % (sec, key, str(o)[:300]))
+            continue
+        v = o["value"]
+        ctx.evaluations += 2
+        ctx.count("empty_key_cases")
+        ctx.nontrivial(["empty-key", sec, key, carrier])
+        a, e = v["absent"], v["empty"]
+        rep = {"argv": [c, "--format", "json", "."], "config": {sec: {key: None}}, "carrier": carrier}
+        shown = dict(fs, **{".thailint.yaml": "%s:\n  enabled: true\n  %s:\n" % (sec, key)})
+        if a["v"] is None or a["exit"] not in (0, 1):
+            ctx.inconclusive_if(True, "empty-key reference run of %s failed: exit %s %s" % (c, a["exit"], a["err"]))
+            continue
+        if e["exit"] == 2:
+            ctx.count("empty_key_refused")
+            continue
+        if e["swallowed"] or e["v"] != a["v"] or e["exit"] != a["exit"]:
+            ctx.discrepancy("empty-key:%s.%s" % (sec, key), "`%s` with `%s: {%s: }` (key without a value, %s): exit %s with %s violation(s) and swallowed rule failures %r; without the key: exit %s with %d" % (
+                c, sec, key, carrier, e["exit"], "no JSON" if e["v"] is None else len(e["v"]), e["swallowed"], a["exit"], len(a["v"])), rep, shown)
 
 
 def conformance(ctx, cases):
